@@ -6,8 +6,9 @@ inside the target resolves to a location outside it.
 Full-strength statement (`C06_unpack_contained`): for every sandbox state `s0` whose target directory `D` exists and
 every tar stream `es`, `Contained D s0 (unpackAll D s0 es).1`.  The unchanged code does not satisfy it
 (`C06_unpack_contained_fails`, DESIGN §6 #37: `symlink.TargetOutsideRoot` is lexical, so `s → /` followed by
-`t → s/..` leaves a link inside the target that the kernel resolves to the target's parent; through such a link later
-entries also create directories and links outside).  The theorem in force is `C06_unpack_contained_partial` under the
+`t → s/..` leaves a link inside the target that the kernel resolves to the target's parent).  Since fix <P6> nothing
+is created THROUGH such a link any more: clause 1 ("nothing outside changes") holds for every stream
+(`C06_unpack_outside_unchanged`); only clause 2 ("no link inside resolves outside") keeps the hypothesis.  The theorem in force is `C06_unpack_contained_partial` under the
 decidable hypothesis `noDotDotTargets` (no relative link target has a `..` component); entry NAMES are unrestricted.
 
 Scope (Audit-1): only `UnpackSquashedFromTarball` is modelled and proved about.  The other clauses of the property —
@@ -71,6 +72,15 @@ theorem C06_unpack_contained_partial (D : Path) (s0 : FS) (es : List TarEntry)
     (hes : noDotDotTargets es = true) :
     Contained D s0 (unpackAll D s0 es).1 :=
   Contained_of_Safe (unpackAll_safe es (goodEntry_of_noDotDot hes) ⟨fun _ _ => rfl, h0, hD⟩)
+
+/-- **C06 (unpack), clause 1 at full strength (since fix <P6>).** For every sandbox state whose target directory `D`
+exists and EVERY tar stream — no hypothesis on names, link targets, order or types — unpacking creates, modifies and
+deletes nothing outside `D`: every object is placed below a directory whose symlink-evaluated path was tested to be
+inside `D` (regular files, links, directory entries and every level of `mkdirAllInside`), and the clean-up only
+removes links below `D`. -/
+theorem C06_unpack_outside_unchanged (D : Path) (s0 : FS) (es : List TarEntry) (hD : s0.get D = some .dir) :
+    ∀ p, isPrefix D p = false → (unpackAll D s0 es).1.get p = s0.get p :=
+  (unpackAll_safeG (good := fun _ => True) es (fun _ _ _ => trivial) ⟨fun _ _ => rfl, fun _ _ _ _ => trivial, hD⟩).1
 
 /-- the executable verdict the driver prints agrees with the first clause of `Contained` on the touched paths -/
 theorem outsideUnchangedB_sound (D : Path) (s0 s : FS) (h : ∀ p, isPrefix D p = false → s.get p = s0.get p) :
@@ -147,13 +157,13 @@ theorem C06_unpack_not_contained : ¬ Contained exD exS0 (unpackAll exD exS0 ex3
     C06_unpack_contained_fails.2.1
   exact absurd this (by decide)
 
-/-- through the escaping link a later link entry is created OUTSIDE the target (`sb/x`), and a directory too (`sb/d`) -/
+/-- REPAIRED (fix <P6>): through the escaping link nothing is created outside any more — neither the link `t/x` nor the
+directory `t/d` (`mkdirAllInside`, and the link's evaluated parent is tested like a regular file's) -/
 def ex37b : List TarEntry := ex37 ++ [lnk ["t", "x"] false ["y"] "y", reg ["t", "d", "f"] 1]
-theorem C06_unpack_writes_outside :
-    (unpackAll exD exS0 ex37b).1.get ["sb", "x"] = some (.link ⟨false, ["y"], "y"⟩) ∧
-    (unpackAll exD exS0 ex37b).1.get ["sb", "d"] = some .dir ∧
-    (unpackAll exD exS0 ex37b).1.get ["sb", "d", "f"] = none ∧
-    outsideUnchangedB exD exS0 (unpackAll exD exS0 ex37b).1 = false := by decide
+example :
+    (unpackAll exD exS0 ex37b).1.get ["sb", "x"] = none ∧
+    (unpackAll exD exS0 ex37b).1.get ["sb", "d"] = none ∧
+    outsideUnchangedB exD exS0 (unpackAll exD exS0 ex37b).1 = true := by decide
 
 /-- the hypothesis is only sufficient: an ordinary relative link with a leading `..` fails it and is contained -/
 def exRel : List TarEntry := [reg ["usr", "lib", "y"] 1, lnk ["usr", "bin", "x"] false ["..", "lib", "y"] "../lib/y"]
